@@ -44,9 +44,6 @@ pub fn parse_until<'a, T: Parse + Clone + Debug>(
     wrapper_determiner: &'a GroupDeterminer,
     allow_empty_parsed: bool,
 ) -> UnitResult<T, ActionGroup> {
-    let group_count = group_determiners.clone().count();
-    let mut group_determiners = group_determiners.cycle();
-
     let mut tokens = TokenStream::new();
     let mut next = None;
     let mut deferred = false;
@@ -54,15 +51,14 @@ pub fn parse_until<'a, T: Parse + Clone + Debug>(
 
     while !input.is_empty()
         && !{
-            let group_determiners = &mut group_determiners;
-
             deferred = deferred_determiner.check_input(input);
             if deferred {
                 deferred_determiner.erase_input(input)?;
             }
 
+            // Always search the determiners in their declared order: the first (longest) match wins.
             let possible_group = group_determiners
-                .take(group_count)
+                .clone()
                 .find(|group| group.check_input(input));
             possible_group
                 .map(|group| {
